@@ -1900,3 +1900,34 @@ package spec
 //@   ensures  [C15] extension-member @@ result2 != nil && oCnt(jv(result2), token) > 0 && isExtKey(token) ==> extMember(result0, result1, jv(result2), token)
 //@   ensures  [C15] unknown-keyword-member @@ result2 != nil && oCnt(jv(result2), token) > 0 && !isExtKey(token) && !schemaKey(token) && token != "$ref" && token != "$schema" ==> extMember(result0, result1, jv(result2), token)
 //@   ensures  [C15] keyword-member @@ result2 != nil && oCnt(jv(result2), token) > 0 && schemaKey(token) ==> result1 == nil && encOf(result0) == oVal(jv(result2), token)
+
+// ---- the root object, and the two plain kinds without codecs of their own
+//@ func verifLemmaSwaggerRoundTrip
+//@   property C01, C19, C06
+//@   requires isObj(jv(data)) && noDuplicates(jv(data)) && nfExtensions(jv(data))
+//@   requires nfKind(jv(data), "SwaggerProps", "#") && requiredPresent(jv(data), "#")
+//@   requires (forall k string :: oCnt(jv(data), k) > 0 ==> knownKey("SwaggerProps", k) || isExtKey(k)) && (forall k string :: knownKey("SwaggerProps", k) ==> !isExtKey(k))
+//@   ensures  [C01,C19] lossless @@ result != nil ==> sameObject(jv(result), jv(data))
+//@   excluding lossless @@ nfKindAll(jv(data), "SwaggerProps", "#")
+//@   ensures  [C19] required-kept @@ result != nil ==> requiredPresent(jv(result), "#")
+//@   excluding required-kept @@ nfKindAll(jv(data), "SwaggerProps", "#")
+//@   ensures  [C06] no-duplicate-members @@ result != nil ==> (forall k string :: oCnt(jv(result), k) <= 1)
+
+//@ func verifLemmaExternalDocsRoundTrip
+//@   property C01, C19, C06
+//@   requires isObj(jv(data)) && noDuplicates(jv(data))
+//@   requires nfKind(jv(data), "ExternalDocumentation", "externalDocs") && requiredPresent(jv(data), "externalDocs")
+//@   requires forall k string :: oCnt(jv(data), k) > 0 ==> knownKey("ExternalDocumentation", k)
+//@   ensures  [C01,C19] lossless @@ result != nil ==> sameObject(jv(result), jv(data))
+//@   excluding lossless @@ nfKindAll(jv(data), "ExternalDocumentation", "externalDocs")
+//@   ensures  [C19] required-kept @@ result != nil ==> requiredPresent(jv(result), "externalDocs")
+//@   excluding required-kept @@ nfKindAll(jv(data), "ExternalDocumentation", "externalDocs")
+//@   ensures  [C06] no-duplicate-members @@ result != nil ==> (forall k string :: oCnt(jv(result), k) <= 1)
+
+//@ func verifLemmaXMLObjectRoundTrip
+//@   property C01, C19, C06
+//@   requires isObj(jv(data)) && noDuplicates(jv(data))
+//@   requires nfKind(jv(data), "XMLObject", "xml")
+//@   requires forall k string :: oCnt(jv(data), k) > 0 ==> knownKey("XMLObject", k)
+//@   ensures  [C01,C19] lossless @@ result != nil ==> sameObject(jv(result), jv(data))
+//@   ensures  [C06] no-duplicate-members @@ result != nil ==> (forall k string :: oCnt(jv(result), k) <= 1)
